@@ -694,6 +694,22 @@ func checkC06(tier string, seed int64) int {
 	}
 	close(ch)
 	wg.Wait()
+	// free-running mode: the C08 stress runs (Low-Latency variant only) with the safety clause
+	// "a 200 response contains what was asked for" evaluated on every blocking request
+	nFree := 24
+	if tier == "thorough" {
+		nFree = 300
+	}
+	for i := 0; i < nFree; i++ {
+		idx := 2 + 3*i // variant = 1 + idx%3 = 3
+		r := runC08Case(seed+5000, idx, tier)
+		obs["free_running_runs"]++
+		obs["free_running_blocking_responses"] += r.obs["blocking_responses_checked"]
+		for _, v := range r.c06viol {
+			k, m := splitKM(v)
+			rep.Report(k, fmt.Sprintf("free-running run %d: %s", idx, m), caseRef{"C08", seed + 5000, idx, tier})
+		}
+	}
 	var inconclusive []string
 	for _, cl := range []string{"expired", "oldest", "gap", "complete", "complete-part", "complete-past-end", "open-nopart", "open-published", "open-next-part", "open-beyond", "next", "far", "malformed", "hint"} {
 		if obs["requests."+cl] < 2 {
@@ -711,7 +727,7 @@ func checkC06(tier string, seed int64) int {
 		PropertyID: "C06", Tier: tier, Seed: seed, Level: "exploration",
 		Coverage: map[string]any{
 			"evaluations": n, "distinct_nontrivial": len(sigs),
-			"rule":               "step-controlled histories: one writer advanced one Write at a time on a Low-Latency muxer; requests of every class of DESIGN appendix A issued at seeded steps on any stream; after each step the monitor waits (hook wait.park / completion) until every woken waiter re-parked or returned, then compares with the playlist state of that step; non-trivial = >= 5 requests; distinct = distinct multisets of request classes",
+			"rule":               "(1) step-controlled histories: one writer advanced one Write at a time on a Low-Latency muxer; requests of every class of DESIGN appendix A issued at seeded steps on any stream; after each step the monitor waits (hook wait.park / completion) until every woken waiter re-parked or returned, then compares with the playlist state of that step; non-trivial = >= 5 requests; distinct = distinct multisets of request classes; (2) free-running stress runs (writer and 4-15 readers unsynchronised, seeded delays at the hook points): every 200 answer to a blocking request must contain the requested part",
 			"samples":            samples,
 			"observed":           obs,
 			"inconclusive":       inconclusive,
